@@ -189,6 +189,19 @@ def tainted_names(f: Func, seeds: Iterable[str]) -> Set[str]:
             elif isinstance(n, (ast.For, ast.comprehension)):
                 srcs = names_in(n.iter)
                 tgts = target_names(n.target)
+            elif isinstance(n, ast.Call) and isinstance(n.func, ast.Attribute) and isinstance(n.func.value, ast.Name) \
+                    and n.func.attr in ("append", "extend", "add", "update", "insert"):
+                # accumulators filled with tainted values are tainted
+                for a in n.args:
+                    srcs |= names_in(a)
+                tgts = [n.func.value.id]
+            if isinstance(n, (ast.Assign, ast.AugAssign)):
+                # container[key] = value with a tainted key or value taints the container
+                for t in (n.targets if isinstance(n, ast.Assign) else [n.target]):
+                    if isinstance(t, ast.Subscript) and isinstance(t.value, ast.Name):
+                        if (names_in(t.slice) | names_in(n.value)) & tainted and t.value.id not in tainted:
+                            tainted.add(t.value.id)
+                            changed = True
             if srcs & tainted:
                 for t in tgts:
                     if t not in tainted:
